@@ -1,2 +1,5 @@
+from contracts.encoder_c import CallEncodeTask
+
+
 def add(run, tier):
-    pass
+    run.add(CallEncodeTask('C02'))
